@@ -70,6 +70,12 @@ ReadOnlyRule(e) ==
        ELSE /\ Same(e) /\ e.postro = "true" /\ e.posterr = e.preerr /\ e.postlive = "true"
             /\ (e.method = "Free" => e.errres = "true")
 
+\* a read-only instance handed to ANOTHER instance's method as an argument
+\* (Transfer destination, element, expression, comparand) does not change either
+ReadOnlyArgRule(e) ==
+  (e.mode = "ronly-arg") =>
+    (e.panic = "" /\ Same(e) /\ e.postro = "true" /\ e.posterr = e.preerr /\ e.postlive = "true")
+
 \* after the flag was cleared, the instance is mutable again
 ProbeRule(e) == (e.mode = "probe") => e.health = "ok"
 
@@ -92,6 +98,7 @@ AwkwardRule(e) ==
 
 Rules(e) ==
   (IF ReadOnlyRule(e) THEN {} ELSE {"ReadOnlyRule"}) \cup
+  (IF ReadOnlyArgRule(e) THEN {} ELSE {"ReadOnlyArgRule"}) \cup
   (IF ProbeRule(e) THEN {} ELSE {"ProbeRule"}) \cup
   (IF InertRule(e) THEN {} ELSE {"InertRule"}) \cup
   (IF QueryRule(e) THEN {} ELSE {"QueryRule"}) \cup
@@ -110,7 +117,7 @@ FNext ==
      IF e.ev # "call" THEN UNCHANGED <<bad, unmodelled>>
      ELSE /\ bad' = IF Rules(e) = {} THEN bad
                     ELSE Append(bad, [line |-> l, rules |-> Rules(e), method |-> e.method, typ |-> e.typ])
-          /\ unmodelled' = IF e.method \in Known THEN unmodelled ELSE unmodelled \cup {e.typ \o "." \o e.method}
+          /\ unmodelled' = IF e.method \in Known \/ e.mode = "ronly-arg" THEN unmodelled ELSE unmodelled \cup {e.typ \o "." \o e.method}
 
 FSpec == FInit /\ [][FNext]_fvars
 
